@@ -222,8 +222,10 @@ fn coq_pevs(p: &[(bool, usize)]) -> String {
 pub fn pipe_threaded(ctx: &mut Ctx, wpc: &mut CaseWriter, r: &mut Rng, cases: usize) {
     let rt = tokio::runtime::Builder::new_current_thread().enable_all().build().unwrap();
     let scratch = Scratch::new("c01p");
+    let v0 = ctx.res.oracle_violations.len();
     for case_no in 0..cases {
-        if ctx.stop() {
+        // (a handful of violations of this group is enough: the session group that follows must get its turn)
+        if ctx.stop() || ctx.res.oracle_violations.len() >= v0 + 8 {
             break;
         }
         let path = scratch.path().join(format!("events-{case_no}.jsonl"));
@@ -404,6 +406,9 @@ pub enum W {
     Auto { schedule: bool },
     Branch,
     Handoff,
+    /// ensure_default: create_continuity when the authority has no default thread yet (a history that starts
+    /// with this step starts on an empty data dir)
+    EnsureDefault,
     Restart,
 }
 #[derive(Clone, Debug)]
@@ -458,6 +463,9 @@ fn do_writer(store: &ContinuityStore, id: &str, w: &W, tag: u64) {
         W::Handoff => {
             let _ = store.handoff(id, None, (Some("# s".into()), None), None, None, (a, o));
         }
+        W::EnsureDefault => {
+            let _ = store.ensure_default();
+        }
         W::Restart => {}
     }
 }
@@ -474,7 +482,9 @@ fn wname(w: &W) -> String {
 fn run_failure_history(steps: &[Step]) -> (Vec<String>, Vec<u64>, Option<String>, u64) {
     let scratch = Scratch::new("c01f");
     let mut env = Env::open(scratch.path());
-    env.store.ensure_default().expect("default thread");
+    if steps.first().map(|s| s.w != W::EnsureDefault).unwrap_or(true) {
+        env.store.ensure_default().expect("default thread");
+    }
     rip_kernel::verif::set_fail_hook(Some(Arc::new(|name: &'static str| {
         if name != "log.append" {
             return false;
@@ -532,6 +542,10 @@ fn run_failure_history(steps: &[Step]) -> (Vec<String>, Vec<u64>, Option<String>
                 let t = if st.w == W::Branch { "EContinuityBranched" } else { "EContinuityHandoffCreated" };
                 let k = (0..attempts).find(|i| failed_here(*i));
                 calls.push(format!("FLineage {t} {} {}", coq_nat(th as u64), match k { Some(k) => format!("(Some {})", coq_nat(k as u64)), None => "None".into() }));
+            }
+            W::EnsureDefault if attempts > 0 => {
+                let k = (0..attempts).find(|i| failed_here(*i));
+                calls.push(format!("FCreate {}", match k { Some(k) => format!("(Some {})", coq_nat(k as u64)), None => "None".into() }));
             }
             _ => {
                 let mut tr = vec![];
@@ -592,7 +606,8 @@ fn record_failure_history(ctx: &mut Ctx, waf: &mut CaseWriter, steps: &[Step], k
     let replay = json!({"append_failure_history": steps.iter().map(|s| format!("{s:?}")).collect::<Vec<_>>()});
     let mut id = -1i64;
     if !ctx.oracle_only {
-        let cid = waf.push(format!("{{| af_setup := [KCap CapEnsureDefault 0%nat fact_ok]; af_calls := [{}]; af_expect := {} |}}", calls.join("; "), coq_list_n(&obs)));
+        let setup = if steps.first().map(|s| s.w != W::EnsureDefault).unwrap_or(true) { "[KCap CapEnsureDefault 0%nat fact_ok]" } else { "[]" };
+        let cid = waf.push(format!("{{| af_setup := {setup}; af_calls := [{}]; af_expect := {} |}}", calls.join("; "), coq_list_n(&obs)));
         id = cid as i64;
         if ctx.res.case_index.len() < 3000 {
             ctx.res.case_index.insert(cid.to_string(), replay.clone());
@@ -658,6 +673,15 @@ pub fn append_failures(ctx: &mut Ctx, waf: &mut CaseWriter, r: &mut Rng, thoroug
         h.push(ok(W::Kind(4)));
         record_failure_history(ctx, waf, &h, "append_failure_file_size_limit");
     }
+    // the very first frame of an authority: create_continuity refused, then retried (warm / after a restart / by the kernel)
+    for (fail, rlimit, restart) in [(vec![0usize], false, false), (vec![0], false, true), (vec![], true, false), (vec![0, 1], false, false)] {
+        let mut h = vec![Step { w: W::EnsureDefault, th: 0, fail, rlimit }];
+        if restart {
+            h.push(ok(W::Restart));
+        }
+        h.extend([ok(W::EnsureDefault), ok(W::EnsureDefault), ok(W::Kind(4)), ok(W::Branch), Step { w: W::Kind(4), th: 1, fail: vec![], rlimit: false }]);
+        record_failure_history(ctx, waf, &h, "append_failure_each_writer");
+    }
     ctx.mark("append_failure_each_writer");
     // random histories
     for _ in 0..(if thorough { 400 } else { 60 }) {
@@ -683,4 +707,67 @@ pub fn append_failures(ctx: &mut Ctx, waf: &mut CaseWriter, r: &mut Rng, thoroug
         record_failure_history(ctx, waf, &h, "append_failure_random_history");
     }
     ctx.mark("append_failure_random_history");
+}
+
+// ---------------------------------------------------------------------------------------------------
+// C: the session emitter when a log write is refused in the middle of a run (open finding W3-order: the C01
+// face of C03's W3 - emit_event numbers, records and publishes a frame, then writes it to the log and drops
+// the result).  One stub run and one `ls` tool-envelope run on the real engine, the k-th log write refused.
+pub const CLASS_SESSION_REFUSED: &str = "session_emitter_numbers_frame_whose_log_write_was_refused";
+
+pub fn session_refused_write(ctx: &mut Ctx) {
+    for (tool, k) in [(false, 1usize), (true, 2), (true, 0)] {
+        if ctx.stop() {
+            return;
+        }
+        let scratch = Scratch::new("c01w");
+        let data_dir = scratch.path().join("data");
+        let ws = scratch.path().join("ws");
+        std::fs::create_dir_all(&data_dir).unwrap();
+        std::fs::create_dir_all(&ws).unwrap();
+        let _ = std::fs::write(ws.join("a.txt"), b"hello\n");
+        let rt = tokio::runtime::Builder::new_current_thread().enable_all().build().unwrap();
+        let engine = {
+            let _g = rt.enter();
+            match ripd::SessionEngine::new(data_dir.clone(), ws, None) {
+                Ok(e) => Arc::new(e),
+                Err(_) => continue,
+            }
+        };
+        let handle = engine.create_session();
+        let sid = handle.session_id.clone();
+        ATTEMPTS.store(0, Ordering::SeqCst);
+        *FAIL_SET.lock().unwrap() = vec![k];
+        rip_kernel::verif::set_fail_hook(Some(Arc::new(|name: &'static str| {
+            if name != "log.append" {
+                return false;
+            }
+            let i = ATTEMPTS.fetch_add(1, Ordering::SeqCst);
+            FAIL_SET.lock().unwrap().contains(&i)
+        })));
+        let _ = std::panic::catch_unwind(std::panic::AssertUnwindSafe(|| rt.block_on(ripd::verif::run_session_inline(&engine, handle, race_input(tool, 0), None))));
+        rip_kernel::verif::set_fail_hook(None);
+        FAIL_SET.lock().unwrap().clear();
+        let attempts = ATTEMPTS.load(Ordering::SeqCst);
+        ctx.res.evaluations += 1;
+        ctx.leaves += 1;
+        ctx.res.oracle_checks += 1;
+        ctx.res.bump("kind=session_refused_write");
+        let hs = parse_log(&std::fs::read(data_dir.join("events.jsonl")).unwrap_or_default()).unwrap_or_default();
+        let seqs: Vec<u64> = hs.iter().filter(|h| h.sid == sid).map(|h| h.seq).collect();
+        if let Some(v) = first_order_violation(&hs) {
+            // executable class: the run made `attempts` log writes, the k-th was refused, and the session's stream in
+            // the log is exactly 0..attempts without k - every frame was numbered, the refused one is missing
+            let expected: Vec<u64> = (0..attempts as u64).filter(|i| *i != k as u64).collect();
+            let class = if seqs == expected && k < attempts { CLASS_SESSION_REFUSED } else { "session_stream_file_order" };
+            ctx.res.oracle_violations.push(OracleViolation {
+                case_id: -1,
+                what: format!("a {} run whose log write #{k} (of {attempts}) was refused while the run went on: {v}; the session's stream in the log: {seqs:?}", if tool { "tool-envelope" } else { "stub" }),
+                class: class.into(),
+                replay: json!({"session_refused_write": {"tool_envelope": tool, "refused_log_write": k}}),
+            });
+            ctx.res.bump(&format!("violation={class}"));
+        }
+    }
+    ctx.mark("session_refused_write");
 }
